@@ -294,10 +294,14 @@ class UdpLoop(VLoop):
         return r
 
     def advance_to(self, t, max_steps=50_000_000):
-        """Default schedule until virtual time t exactly (timers due at t are fired and run)."""
-        self.run_until(lambda: False, horizon_t=t, max_steps=max_steps)
+        """Default schedule until virtual time t exactly (timers due at t are fired and run).  Returns False when the
+        step budget ran out first (virtual time is not advancing: some exchange never quiesces)."""
+        status = self.run_until(lambda: False, horizon_t=t, max_steps=max_steps)
+        if status == 'horizon_steps':
+            return False
         if self._vtime < t:
             self._vtime = t
+        return True
 
     # -- schedule drivers ----------------------------------------------------------------------------------------
     def timer_allowed_hit(self, when):
@@ -555,17 +559,23 @@ class Net:
         """Default schedule until every node has joined and the routing tables did not change over a whole `window`
         of virtual seconds that starts at or after min_t.  Returns dict(fixed, vtime, datagrams)."""
         lp = self.loop
-        lp.advance_to(min_t)
+        # step budget: measured joins need ~10k (n=2) .. ~130k (n=40) boundaries; >= 10x that with virtual time still
+        # short of the target means "virtual time does not advance" (a lookup that never ends spins without
+        # consuming time)
+        budget = 300_000 + 30_000 * self.n
+        if not lp.advance_to(min_t, max_steps=budget):
+            return {'fixed': False, 'stuck': True, 'vtime': lp.time(), 'datagrams': lp.stats['sent']}
         snap = self.tables()
         fixed = False
         while lp.time() < max_t:
-            lp.advance_to(lp.time() + window)
+            if not lp.advance_to(lp.time() + window, max_steps=budget):
+                return {'fixed': False, 'stuck': True, 'vtime': lp.time(), 'datagrams': lp.stats['sent']}
             cur = self.tables()
             if cur == snap and all(nd.joined.is_set() for nd in self.nodes[1:] or self.nodes):
                 fixed = True
                 break
             snap = cur
-        return {'fixed': fixed, 'vtime': lp.time(), 'datagrams': lp.stats['sent']}
+        return {'fixed': fixed, 'stuck': False, 'vtime': lp.time(), 'datagrams': lp.stats['sent']}
 
     def stop(self):
         self.loop.activate()
@@ -574,5 +584,14 @@ class Net:
                 nd.stop()
             except Exception:   # noqa - nodes that were replaced by fake endpoints may be half-stopped already
                 pass
+        # let every task unwind while the loop is still open (their finally blocks call loop.call_soon)
+        self.loop.inflight.clear()
+        for _ in range(50):
+            pending = [t for t in asyncio.all_tasks(self.loop) if not t.done()]
+            if not pending and not self.loop._ready:
+                break
+            for t in pending:
+                t.cancel()
+            self.loop.step()
         self.loop.shutdown()
         clear_caches()
